@@ -95,6 +95,7 @@ impl<'i> Parser<'i> {
         &&& self.pos <= self.tokens@.len()
         &&& forall|i: int| 0 <= i < self.tokens@.len() ==> is_tok(#[trigger] self.tokens@[i].kind)
         &&& self.depth <= MAX_DEPTH
+        &&& self.fuel <= FUEL
     }
     spec fn wf_ev(&self) -> bool {
         &&& n_adv(self.events@) == self.pos
@@ -156,6 +157,20 @@ proof fn lemma_tokenset_step(res: u128, kinds: Seq<SyntaxKind>, i: int)
         if has_upto(kinds, i + 1, k) { let j = choose|j: int| 0 <= j < i + 1 && #[trigger] kinds[j] == k; if j < i { assert(has_upto(kinds, i, k)); } }
     }
 }
+// ---------- progress-guard fuel (R10 makes it a plain field) ----------
+// look-aheads one level of nesting may spend while the recursion unwinds without consuming a token
+spec const FUEL_U: int = 9;
+// everything but the fuel is untouched (contract of the look-ahead methods nth / at / at_any)
+spec fn same_but_fuel(o: Parser, n: Parser) -> bool {
+    n.tokens@ == o.tokens@ && n.tokens_raw@ == o.tokens_raw@ && n.src@ == o.src@ && n.pos == o.pos && n.depth == o.depth && n.events@ == o.events@
+}
+// fuel accounting of a grammar function: nothing consumed => at most `pre` look-aheads were spent;
+// otherwise the fuel was reset by the last bump and at most a + FUEL_U * (levels of nesting left) were spent since
+// (9 == FUEL_U, written as a literal to keep the arithmetic linear)
+spec fn fuel_ok(o: Parser, n: Parser, pre: int, a: int) -> bool {
+    if n.pos == o.pos { n.fuel >= o.fuel - pre } else { n.fuel >= FUEL - (a + 9 * (MAX_DEPTH + 1 - o.depth)) }
+}
+
 // ---------- abbreviations used by contracts/parser.spec ----------
 // frame + depth change d  (d = 0: balanced; d = -1: finishes a node it was handed; d = +1: inside a loop under one open node)
 spec fn lp(o: Parser, n: Parser, d: int) -> bool { ext(o, n) && depth(n.events@) == depth(o.events@) + d }
